@@ -181,13 +181,21 @@ impl Batch {
 
     /// Runs every binary (in parallel), returns parsed JSON lines per binary plus infra notes.
     pub fn run(&self, env: &[(String, String)], timeout_s: u64) -> (Vec<Value>, Vec<String>) {
-        let mut handles = Vec::new();
+        // The shared target dir is reused by the next batch: run from private hard links. All links
+        // are made before any child is spawned (a copy racing with fork/exec gives ETXTBSY).
+        let mut privates = Vec::new();
         for b in 0..self.nbins {
             let path = self.bin_path(b);
-            let env: Vec<(String, String)> = env.to_vec();
-            // the shared target dir is reused by the next batch: run from a private copy
             let private = self.dir.join(format!("b{:02}.bin", b));
-            let _ = fs::copy(&path, &private);
+            let _ = fs::remove_file(&private);
+            if fs::hard_link(&path, &private).is_err() {
+                let _ = fs::copy(&path, &private);
+            }
+            privates.push(private);
+        }
+        let mut handles = Vec::new();
+        for private in privates {
+            let env: Vec<(String, String)> = env.to_vec();
             handles.push(std::thread::spawn(move || run_one(&private, &env, timeout_s)));
         }
         let mut vals = Vec::new();
